@@ -568,7 +568,7 @@ def main():
         for oname in sorted(set(cfg.get('oracles', {}).values())):
             if oname not in [b[0] for b in bounded_list]:
                 bounded_list.append((oname, 'supplementary exploration of the real code (thorough tier)'))
-        seeds = [seed, seed + 1, seed + 2, seed + 3, seed + 4]
+        seeds = [seed + k for k in range(12)]
     for oname, what in [(o, w) for (o, w) in bounded_list for _ in [0]]:
         binp, err = build_replay(a.repo)
         if not binp:
